@@ -512,3 +512,54 @@ def lineTokens (l : List UInt8) : List (List UInt8) :=
   (splitAtSep isDelim l).filter (fun w => !w.isEmpty)
 
 end KV.KN
+
+namespace KV.KN
+
+/-! ## 7. The `--prune` option vector (`ParsePruning`, lmplz_main.cc) -/
+
+inductive PruneErr where
+  | badThreshold     -- "Bad pruning threshold x"  (boost::lexical_cast<uint64_t> fails)
+  | tooMany          -- "You specified pruning thresholds for orders 1 through k but the model only has order n"
+  | decreasing       -- "Pruning thresholds should be in non-decreasing order."
+deriving Repr, DecidableEq
+
+/-- `boost::lexical_cast<uint64_t>`: an optional sign and decimal digits; the magnitude must fit
+64 bits; a leading `-` negates modulo 2^64 (so `-1` is `UINT64_MAX`) -/
+def parseU64 (s : String) : Option Nat :=
+  let cs := s.toList
+  let (neg, ds) := match cs with
+    | '-' :: r => (true, r)
+    | '+' :: r => (false, r)
+    | r => (false, r)
+  if ds.isEmpty || !ds.all Char.isDigit then none
+  else
+    let v := ds.foldl (fun a c => a * 10 + (c.toNat - '0'.toNat)) 0
+    if v ≥ 2 ^ 64 then none
+    else some (if neg then (2 ^ 64 - v) % 2 ^ 64 else v)
+
+/-- the check `lower_threshold > *it` over the whole vector, starting from 0 -/
+def nonDecreasing : List Nat → Bool
+  | a :: b :: t => decide (a ≤ b) && nonDecreasing (b :: t)
+  | _ => true
+
+/-- **the option-vector predicate**: at most one value per order, never decreasing -/
+def pruneVectorOK (vals : List Nat) (order : Nat) : Bool :=
+  decide (vals.length ≤ order) && nonDecreasing vals
+
+/-- padding "to all orders using the last value" (all 0 when the option is absent) -/
+def padPrune (vals : List Nat) (i : Nat) : Nat :=
+  match vals.getLast? with
+  | none => 0
+  | some l => vals.getD i l
+
+/-- `ParsePruning`: the threshold of order `i+1`, or the refusal -/
+def parsePruning (toks : List String) (order : Nat) : Except PruneErr (Nat → Nat) :=
+  match toks.mapM parseU64 with
+  | none => .error .badThreshold
+  | some vals =>
+    if vals.isEmpty then .ok (fun _ => 0)
+    else if vals.length > order then .error .tooMany
+    else if !nonDecreasing vals then .error .decreasing
+    else .ok (padPrune vals)
+
+end KV.KN
